@@ -6,6 +6,7 @@ from __future__ import annotations
 
 import copy
 import json
+import os
 import random
 
 import problems
@@ -70,6 +71,36 @@ def systematic_items(tier: str, seed: int, focus: str):
     return out
 
 
+def circuit_items(tier: str, seed: int, focus: str):
+    """Systematic circuit models: n = 4, 5 successors, alldifferent + the sub-cycle constraint (in both posting orders),
+    one successor fixed at the root and one successor with a narrowed range, under every value heuristic.  The
+    sub-cycle constraint prunes a path's end and cascades through the instantiations it causes: the cascades that
+    matter need five nodes."""
+    knobs = FOCUS[focus]
+    out = []
+    k = 0
+    for n in (4, 5):
+        fixings = [(i, j) for i in range(n) for j in range(n) if i != j]
+        if tier == "quick":
+            fixings = fixings[(seed % 2)::2]
+        for (i, j) in fixings:
+            for (a, lo) in (((i + 1) % n, 0), ((i + 3) % n, n // 2)):
+                doms = [[0, n - 1] for _ in range(n)]
+                doms[i] = [j, j]
+                doms[a] = [lo, n - 1]
+                props = [{"vars": list(range(n)), "alg": "alldifferent", "params": []},
+                         {"vars": list(range(n)), "alg": "no_sub_cycle", "params": []}]
+                if k % 2:
+                    props.reverse()
+                P = {"doms": doms, "vidx": list(range(n)), "voff": [0] * n, "props": props}
+                for dh in ((0, 1, 2, 3) if tier == "thorough" or n == 5 else (k % 4,)):
+                    ca = knobs["ca"] if knobs.get("ca") is not None else (1 if k % 5 == 0 else 0)
+                    cfg = {"ca": ca, "vh": (0, 2, 1)[(k + dh) % 3], "dh": dh, "height": 64}
+                    out.append({"P": P, "cfg": cfg, "mode": "solve"})
+                k += 1
+    return out
+
+
 def solo_items(tier: str, seed: int, focus: str):
     """One constraint ALONE in a solver, on the boxes of the propagator-call scope (harness/scope.py): a missed ground
     check or a premature entailment of one propagator cannot be masked by a neighbouring constraint."""
@@ -122,6 +153,8 @@ def build_items(tier: str, seed: int, focus: str, n: int | None = None):
     items = _random_items(tier, seed, focus, n)
     if n is None:
         items += systematic_items(tier, seed, focus)
+        if "circuit" in (FOCUS[focus].get("flavours") or ["circuit"]):
+            items += circuit_items(tier, seed, focus)
         if FOCUS[focus].get("solo"):
             items += solo_items(tier, seed, focus)
     for k, it in enumerate(items):
@@ -250,7 +283,22 @@ def run_corpus(tier: str, seed: int, focus: str, items=None, chunk: int = 6000):
 
 def report_engine(rep, tier, seed, focus, prefixes, what):
     r = run_corpus(tier, seed, focus)
+    shrunk = 0
     for it, l, clause in r["failures"]:
+        if clause.startswith(prefixes) and shrunk < 2 and not os.environ.get("VERIF_NO_SHRINK"):
+            # minimise the first failing instances before they go to the replay file
+            shrunk += 1
+            try:
+                with Scratch("shrink") as tmp:
+                    small = shrink({"P": it["P"], "cfg": it["cfg"], "mode": it["mode"],
+                                    **({"var": it["var"]} if "var" in it else {}),
+                                    **({"limit": it["limit"]} if "limit" in it else {})}, clause, tmp)
+                rep.fail({"P": small["P"], "cfg": small["cfg"], "mode": small["mode"], "var": small.get("var", -1),
+                          "limit": small.get("limit", -1), "clause": clause, "event": -1, "minimised": True,
+                          "algs": sorted({c["alg"] for c in small["P"]["props"]})},
+                         f"{clause} (minimised) of {small['mode']} on {json.dumps(small['P'])[:300]} cfg={small['cfg']}")
+            except Exception as ex:  # noqa: shrinking is best effort
+                rep.notes.append(f"shrinker failed: {ex}")
         if clause.startswith(prefixes):
             case = {"P": it["P"], "cfg": it["cfg"], "mode": it["mode"], "var": it.get("var", -1),
                     "limit": it.get("limit", -1), "clause": clause, "event": l,
@@ -470,3 +518,56 @@ def model_trace_stage(rep, tier, seed, prefixes):
     rep.cov["shipped_model_engine_traces"] = {"traces": len(traces), "events": sum(len(t["ev"]) for t in traces),
                                               "models": sorted({n for n, _, _, _ in MODEL_TRACES}),
                                               "custom_consistency_algorithm": "golomb (4 traces)"}
+
+
+def shrink(item, clause, tmp, budget=14):
+    """Greedy delta debugging of a failing engine item: drop constraints, simplify the configuration, narrow domains,
+    keeping a candidate whenever the SAME clause still fails.  Returns the smallest failing item found."""
+    import copy as _copy
+
+    def fails(it):
+        it = dict(it, id=0)
+        try:
+            traces, verdicts, *_ = record_and_judge([it], tmp)
+        except Machinery:
+            return False
+        return any(c == clause for _, _, c in verdicts)
+
+    best = _copy.deepcopy(item)
+    tries = 0
+
+    def candidates(it):
+        P = it["P"]
+        for k in range(len(P["props"])):
+            if len(P["props"]) > 1:
+                c = _copy.deepcopy(it)
+                del c["P"]["props"][k]
+                yield c
+        for key, val in (("ca", 0), ("vh", 0), ("dh", 0)):
+            if it["cfg"].get(key, 0) != val and not (key == "dh" and it["cfg"].get("dh") in (3, 4) and "dparams" in it["cfg"]):
+                c = _copy.deepcopy(it)
+                c["cfg"][key] = val
+                yield c
+        if it["cfg"].get("decision"):
+            c = _copy.deepcopy(it)
+            del c["cfg"]["decision"]
+            yield c
+        for d, (lo, hi) in enumerate(P["doms"]):
+            if hi > lo:
+                for nd in ([lo, hi - 1], [lo + 1, hi]):
+                    c = _copy.deepcopy(it)
+                    c["P"]["doms"][d] = nd
+                    yield c
+
+    progress = True
+    while progress and tries < budget:
+        progress = False
+        for cand in candidates(best):
+            if tries >= budget:
+                break
+            tries += 1
+            if fails(cand):
+                best = cand
+                progress = True
+                break
+    return best
